@@ -116,6 +116,19 @@ impl AutoAllocState {
         self.queues.values().any(|q| q.state().is_active())
     }
 
+    #[cfg(feature = "verif")]
+    pub fn verif_allocation_index(&self) -> Vec<(AllocationId, QueueId)> {
+        self.allocation_to_queue
+            .iter()
+            .map(|(a, q)| (a.clone(), *q))
+            .collect()
+    }
+
+    #[cfg(feature = "verif")]
+    pub fn verif_inactive_directory_count(&self) -> usize {
+        self.inactive_allocation_directories.len()
+    }
+
     #[cfg(test)]
     pub fn set_max_kept_directories(&mut self, count: usize) {
         self.max_kept_directories = count;
@@ -213,6 +226,11 @@ impl AllocationQueue {
 
     #[cfg(test)]
     pub fn set_handler(&mut self, handler: Box<dyn QueueHandler>) {
+        self.handler = handler;
+    }
+
+    #[cfg(feature = "verif")]
+    pub fn verif_set_handler(&mut self, handler: Box<dyn QueueHandler>) {
         self.handler = handler;
     }
 
@@ -539,6 +557,17 @@ impl RateLimiter {
     #[cfg(test)]
     pub fn allocation_fail_count(&self) -> u64 {
         self.allocation_fails
+    }
+
+    /// (current delay level, time of the last attempt, allocation fails, submission fails)
+    #[cfg(feature = "verif")]
+    pub fn verif_snapshot(&self) -> (usize, Option<Instant>, u64, u64) {
+        (
+            self.current_delay,
+            self.last_submission,
+            self.allocation_fails,
+            self.submission_fails,
+        )
     }
 }
 
